@@ -14,3 +14,30 @@ pub use linked_hash_set::LinkedHashSet;
 pub use parking_lot::{
     self, Condvar, Mutex, MutexGuard, RwLock, RwLockReadGuard, RwLockWriteGuard,
 };
+
+/// Verification hooks (compiled only with `--cfg ckb_verif`).
+///
+/// `point(name)` is called at suspension points between critical sections; by default it is a
+/// no-op. A monitoring harness may install one process-wide callback to record the schedule
+/// and to inject delays.
+#[cfg(ckb_verif)]
+pub mod verif {
+    use std::sync::OnceLock;
+
+    type Callback = Box<dyn Fn(&'static str) + Send + Sync>;
+
+    static CALLBACK: OnceLock<Callback> = OnceLock::new();
+
+    /// Install the process-wide callback; returns false if one is already installed.
+    pub fn install(callback: Callback) -> bool {
+        CALLBACK.set(callback).is_ok()
+    }
+
+    /// Report that the current thread reached the named point.
+    #[inline]
+    pub fn point(name: &'static str) {
+        if let Some(callback) = CALLBACK.get() {
+            callback(name)
+        }
+    }
+}
